@@ -72,16 +72,16 @@ event goes to the MAIN order bucket.  This is what lets the model move `Ord` rec
 -- `ORDER` = the order decoded by `DeserializeOrder` from the raw bytes (`cb$1` of the fetch callback), `$1` = the
 -- destination bucket parameter, `cb$2` = the `extraOrderData` the callback received
 theorem facts_order_keys :
-    updateOrderStores = [["storeEventTX", "($0.Bucket(cb$0[:]))", "(NewUpdatedEvent((ORDER.Details().State),ORDER))"],
+    updateOrderStores = [["storeEventTX", "$0.Bucket(cb$0[:])", "NewUpdatedEvent(ORDER.Details().State,ORDER)"],
       ["storeOrderTX", "$1", "var:bytes.Buffer.Bytes() | nil"],
       ["storeOrderMinUnitsMatchTX", "$1", "ORDER.Details().MinUnitsMatch"], ["storeOrderTlvTX", "$1", "ORDER"],
-      ["storeOrderMinNoderTierTX", "$1", "(ORDER.(*order.Bid))#0.MinNodeTier"]] ∧
-    copyOrderStores = [["storeOrderTX", "$1", "(cb$1) | nil"], ["storeOrderTlvTX", "$1", "ORDER"],
-      ["storeOrderMinNoderTierTX", "$1", "(cb$2.minNodeTier)"],
-      ["storeOrderMinUnitsMatchTX", "$1", "(cb$2.minUnitsMatch)"]] ∧
-    updateOrderDecodes = ["DeserializeOrder((bytes.NewReader(cb$1)))", "deserializeOrderTlvData(ORDER)"] ∧
-    copyOrderDecodes = ["DeserializeOrder((bytes.NewReader(cb$1)))", "deserializeOrderTlvData(ORDER)"] ∧
-    getOrderDecodes = ["DeserializeOrder((bytes.NewReader(cb$1)))", "deserializeOrderTlvData(ORDER)"] := by decide
+      ["storeOrderMinNoderTierTX", "$1", "((ORDER.(*order.Bid)))#0.MinNodeTier"]] ∧
+    copyOrderStores = [["storeOrderTX", "$1", "cb$1 | nil"], ["storeOrderTlvTX", "$1", "ORDER"],
+      ["storeOrderMinNoderTierTX", "$1", "cb$2.minNodeTier"],
+      ["storeOrderMinUnitsMatchTX", "$1", "cb$2.minUnitsMatch"]] ∧
+    updateOrderDecodes = ["DeserializeOrder(bytes.NewReader(cb$1))", "deserializeOrderTlvData(ORDER)"] ∧
+    copyOrderDecodes = ["DeserializeOrder(bytes.NewReader(cb$1))", "deserializeOrderTlvData(ORDER)"] ∧
+    getOrderDecodes = ["DeserializeOrder(bytes.NewReader(cb$1))", "deserializeOrderTlvData(ORDER)"] := by decide
 
 /-- **One exported mutator = one bbolt write transaction.**  Regenerated from the source: each of the modelled
 `DB` methods contains exactly one `db.Update`, no separate read (`db.View`, `db.Account`, `db.GetOrder` …), and
